@@ -30,6 +30,7 @@ Record Inv (conc : nat) (budget : option Z) (c : col) : Prop := mkInv {
   i_fly : n_start (rtrace c) = n_done (rtrace c) + length (inflight c);
   i_buf : n_result (rtrace c) + length (buffer c) <= n_done (rtrace c);
   i_bufx : err c = None -> n_done (rtrace c) = n_result (rtrace c) + length (buffer c);
+  i_errx : err c <> None -> n_result (rtrace c) + length (buffer c) < n_done (rtrace c);
   i_conc : nrun c <= conc;
   i_always : always (P_conc conc) (rtrace c);
   i_rem : remaining c = match budget with None => None | Some b => Some (b - charged (rtrace c))%Z end;
@@ -38,14 +39,14 @@ Record Inv (conc : nat) (budget : option Z) (c : col) : Prop := mkInv {
 
 Lemma inv_init conc budget orc : Inv conc budget (init budget orc).
 Proof.
-  constructor; simpl; try lia; auto.
+  constructor; simpl; try lia; auto; try congruence.
   - unfold P_conc; simpl; lia.
   - destruct budget; simpl; auto. f_equal; lia.
   - destruct budget; simpl; auto.
 Qed.
 
 Lemma inv_set_st conc budget s c : Inv conc budget c -> Inv conc budget (set_st s c).
-Proof. intros [? ? ? ? ? ? ? ? ? ?]; constructor; simpl; auto. Qed.
+Proof. intros [? ? ? ? ? ? ? ? ? ? ?]; constructor; simpl; auto. Qed.
 
 Lemma budget_cons_other budget e l :
   (forall s t r, e <> ETake s t r) -> P_budget budget (e :: l).
@@ -56,7 +57,7 @@ Lemma inv_emit_neutral conc budget e c :
   (match e with EAsk _ | ERaise _ | EHalt => True | _ => False end) ->
   Inv conc budget c -> Inv conc budget (emit e c).
 Proof.
-  intros He [? ? ? ? ? ? Ha ? Hb ?].
+  intros He [? ? ? ? ? ? ? Ha ? Hb ?].
   assert (Hc := always_head _ _ Ha).
   destruct e; try contradiction; constructor; simpl; auto;
     try (split; [unfold P_conc in *; simpl; exact Hc | exact Ha]);
@@ -68,14 +69,14 @@ Proof.
   intros H. unfold ask. destruct (oracle c) as [|a o] eqn:E.
   - apply inv_emit_neutral; simpl; auto.
   - apply inv_emit_neutral; simpl; auto.
-    destruct H as [? ? ? ? ? ? ? ? ? ?]; constructor; simpl; auto.
+    destruct H as [? ? ? ? ? ? ? ? ? ? ?]; constructor; simpl; auto.
 Qed.
 
 Lemma inv_take conc budget j q c :
   Inv conc budget c -> budget_left (remaining c) = true -> nrun c < conc ->
   Inv conc budget (take j q c).
 Proof.
-  intros [H1 H2 H3 H4 H5 H6 Ha Hr Hb Hs] Hbl Hlt.
+  intros [H1 H2 H3 H4 H5 H5' H6 Ha Hr Hb Hs] Hbl Hlt.
   assert (Hc := always_head _ _ Ha). unfold P_conc in Hc.
   constructor; simpl; auto; try lia.
   - rewrite app_length; simpl; lia.
@@ -120,11 +121,12 @@ Qed.
 Lemma inv_deliver conc budget x b c :
   buffer c = x :: b -> Inv conc budget c -> Inv conc budget (deliver x b c).
 Proof.
-  intros Eb [H1 H2 H3 H4 H5 H6 Ha Hr Hb Hs]. rewrite Eb in *. simpl in *.
+  intros Eb [H1 H2 H3 H4 H5 H5' H6 Ha Hr Hb Hs]. rewrite Eb in *. simpl in *.
   assert (Hc := always_head _ _ Ha). unfold P_conc in Hc.
   assert (0 < nrun c) by lia.
   constructor; simpl; auto; try lia.
   - intros He. specialize (H5 He). lia.
+  - intros He. specialize (H5' He). lia.
   - split; [|exact Ha]. unfold P_conc; simpl. lia.
   - split; [|exact Hb]. apply budget_cons_other; congruence.
 Qed.
@@ -159,7 +161,7 @@ Lemma inv_start_all : forall n conc budget c, Inv conc budget c -> Inv conc budg
 Proof.
   induction n as [|n IH]; intros conc budget c H; simpl; auto.
   destruct (spawned c) as [|x r] eqn:Es; auto.
-  apply IH. destruct H as [H1 H2 H3 H4 H5 H6 Ha Hr Hb Hs]. rewrite Es in *. simpl in *.
+  apply IH. destruct H as [H1 H2 H3 H4 H5 H5' H6 Ha Hr Hb Hs]. rewrite Es in *. simpl in *.
   assert (Hc := always_head _ _ Ha). unfold P_conc in Hc.
   constructor; simpl; auto; try lia.
   - rewrite app_length; simpl; lia.
@@ -182,15 +184,16 @@ Lemma inv_complete conc budget c ev : Inv conc budget c -> Inv conc budget (comp
 Proof.
   intros H. unfold complete. destruct (remove_nth (fst ev) (inflight c)) as [[x rest]|] eqn:E; auto.
   apply remove_nth_length in E.
-  destruct H as [H1 H2 H3 H4 H5 H6 Ha Hr Hb Hs].
+  destruct H as [H1 H2 H3 H4 H5 H5' H6 Ha Hr Hb Hs].
   assert (Hc := always_head _ _ Ha). unfold P_conc in Hc.
   assert (Hal : always (P_conc conc) (EDone (fst x) (snd ev) :: rtrace c)).
   { split; [|exact Ha]. unfold P_conc; simpl. lia. }
   assert (Hbl : always (P_budget budget) (EDone (fst x) (snd ev) :: rtrace c)).
   { split; [|exact Hb]. apply budget_cons_other; congruence. }
   simpl. destruct (snd ev) as [p|e]; destruct (err c) eqn:Ee; constructor; simpl; auto; try lia;
-    try rewrite app_length; simpl; try lia; try discriminate.
-  intros _. specialize (H5 eq_refl). lia.
+    try rewrite app_length; simpl; try lia; try discriminate; try congruence;
+    try (intros _; specialize (H5 eq_refl); lia);
+    try (intros Hn; specialize (H5' Hn); lia).
 Qed.
 
 Lemma inv_fold_complete conc budget : forall batch c, Inv conc budget c -> Inv conc budget (fold_left complete batch c).
